@@ -149,6 +149,8 @@ pub(crate) mod verif_u2 {
         };
     }
     wrong_size_frame!(u_on_input_wrong_size_first_of_two, 2, 0);
+    // (NOT REGISTERED: the instance with one well-formed frame delivered before the malformed one runs the solver out of
+    //  memory - 14 GB cap hit after 350 s of symex, > 19 GB after 200 s of solving with a 30 GB cap)
     wrong_size_frame!(u_on_input_wrong_size_second_of_two, 2, 1);
 
     macro_rules! on_input_stream {
